@@ -236,6 +236,67 @@ fn random_text(rng: &mut Rng) -> String {
     s
 }
 
+/// A text assembled from pieces whose token structure is known by construction (independent of
+/// marwood's lexer): brackets, string literals with escaped quotes and backslashes and brackets
+/// inside, comments with quotes and brackets inside, character literals of brackets, atoms.
+/// Returns the text and its tokens (only bracket kinds matter; other tokens are Symbol).
+fn constructed_text(rng: &mut Rng) -> (String, Vec<Token>) {
+    #[derive(PartialEq, Clone, Copy)]
+    enum K {
+        Open,
+        Close,
+        Other,
+        Blank,
+    }
+    let n = 2 + rng.usize(12);
+    let mut pieces: Vec<(String, K, TokenType)> = vec![];
+    for _ in 0..n {
+        let (p, k, t): (String, K, TokenType) = match rng.usize(12) {
+            0 | 1 | 2 => ((*rng.pick::<&str>(&["(", "(", "[", "{"])).to_string(), K::Open, TokenType::LeftParen),
+            3 => ("#(".to_string(), K::Open, TokenType::HashParen),
+            4 | 5 | 6 => ((*rng.pick::<&str>(&[")", ")", "]", "}"])).to_string(), K::Close, TokenType::RightParen),
+            7 | 8 => {
+                let m = rng.usize(5);
+                let mut c = String::from("\"");
+                for _ in 0..m {
+                    c.push_str(*rng.pick::<&str>(&["a", "(", ")", "[", " ", ";", "\\\"", "\\\\", "#(", "x", "\u{3bb}"]));
+                }
+                c.push('"');
+                (c, K::Other, TokenType::String)
+            }
+            9 => {
+                let m = rng.usize(4);
+                let mut c = String::from(";");
+                for _ in 0..m {
+                    c.push_str(*rng.pick::<&str>(&[" x", "(", ")", "\"", "#(", "\\", " "]));
+                }
+                c.push('\n');
+                (c, K::Blank, TokenType::WhiteSpace)
+            }
+            10 => ((*rng.pick::<&str>(&["#\\(", "#\\)", "#\\a", "#\\[", "#\\space", "#\\;", "#\\\""])).to_string(), K::Other, TokenType::Char),
+            _ => ((*rng.pick::<&str>(&["a", "foo", "12", "x-y", "\u{3bb}", "#t"])).to_string(), K::Other, TokenType::Symbol),
+        };
+        pieces.push((p, k, t));
+    }
+    let mut text = String::new();
+    let mut tokens = vec![];
+    let mut prev = K::Blank;
+    for (p, k, t) in pieces {
+        // a separating space, except (sometimes) next to a bracket where none is needed
+        let tight = (prev == K::Open || prev == K::Blank || ((prev == K::Close) && (k == K::Close || k == K::Open)) || (k == K::Close && prev != K::Other) || (k == K::Close && rng.bool())) && !(prev == K::Other && k != K::Close);
+        if !(tight && rng.chance(2, 3)) && !text.is_empty() {
+            text.push(' ');
+        }
+        let start = text.len();
+        text.push_str(&p);
+        if k != K::Blank {
+            tokens.push(Token::new((start, text.len()), t));
+        }
+        prev = k;
+    }
+    (text, tokens)
+}
+
 pub fn run(ctx: &Ctx, rep: &mut Report) {
     if let Some(w) = &ctx.witness {
         let text = w.get("text").and_then(|t| t.as_str()).unwrap_or("").to_string();
@@ -301,6 +362,43 @@ pub fn run(ctx: &Ctx, rep: &mut Report) {
             if rep.want_sample() && index % 5 == 0 {
                 rep.sample(Json::obj().set("kind", "random").set("text", text.as_str()));
             }
+        }
+    }
+    // Part 3: texts whose token stream is known by construction, so that "brackets inside strings,
+    // character literals and comments are ignored" is judged independently of marwood's lexer
+    let n3 = ctx.cases(20_000, 400_000);
+    for index in ctx.indices(n3) {
+        let mut rng = ctx.rng("c20-constructed", index);
+        let (text, toks) = constructed_text(&mut rng);
+        // the production lexer must see the same brackets at the same places
+        let mine: Vec<(usize, usize)> = toks.iter().filter(|t| is_bracket(t)).map(|t| t.span).collect();
+        match scan(&text) {
+            Some(theirs) => {
+                let theirs: Vec<(usize, usize)> = theirs.iter().filter(|t| is_bracket(t)).map(|t| t.span).collect();
+                if mine != theirs {
+                    rep.violation(
+                        "lexer:bracket-tokens-differ-from-construction",
+                        format!("text={:?}: bracket tokens by construction {:?} but the lexer reports {:?}", text, mine, theirs),
+                        witness(&text, 0),
+                        (ctx.shard, index),
+                    );
+                    continue;
+                }
+            }
+            None => {
+                rep.violation("lexer:constructed-text-does-not-scan", format!("text={:?} is made of well-formed tokens but the lexer rejects it", text), witness(&text, 0), (ctx.shard, index));
+                continue;
+            }
+        }
+        let tokens = Some(toks);
+        let mut any = false;
+        for cursor in 0..=text.len() + 1 {
+            let o = check_one(&text, cursor, &tokens, rep, (ctx.shard, index));
+            any |= o.highlighted;
+        }
+        rep.count("constructed_texts", 1);
+        if any {
+            rep.nontrivial(hash_str(&text));
         }
     }
 }
